@@ -225,6 +225,12 @@ func (w *World) checkAddProof(n *Node, st *State, A, B []H) {
 	pa, _ := L.CanonProof(A)
 	pb, _ := L.CanonProof(B)
 	pa.Targets, pa.Proof, pb.Targets, pb.Proof = padU(pa.Targets), padH(pa.Proof), padU(pb.Targets), padH(pb.Proof)
+	if eqHashes(A, B) {
+		// the same proof on both sides: hand over the very same slices (a caller that
+		// merges a proof with itself), so the two arguments alias each other
+		B, pb = A, pa
+		w.stats.Reach["addproof_arguments_alias"]++
+	}
 	var hs []H
 	var pc u.Proof
 	g := w.fp.begin("AddProof", A, B, pa.Targets, pa.Proof, pb.Targets, pb.Proof)
